@@ -735,6 +735,17 @@ func init() {
 			o.NodeSpacing = spacingVal(r, c.Regime, false)
 			o.LayerSpacing = spacingVal(r, c.Regime, false)
 			o.Virtual = r.Intn(2) == 0
+			if o.Router == 0 && r.Intn(6) == 0 {
+				// abutting bands: LayerSpacing 0 and bands of height 0, so that consecutive bands (and the bends between them)
+				// share one y; a polyline still has one bend per intermediate band
+				o.LayerSpacing = fptr(0)
+				if r.Intn(2) == 0 {
+					o.Sizes, o.SizeXY = nil, nil
+				} else {
+					heteroSizes(r, &o, ids, c.Regime, 100, 0.7)
+				}
+				c.Family += "+abutting-bands"
+			}
 			capNS(&o)
 			if extremeScale(r, &o) {
 				c.Family += "+extreme-scale"
@@ -764,6 +775,23 @@ func checkC06(c *core.Case, v *view) Result {
 	router := core.RouterNames[c.Opts.Router]
 	match := matchEdges(c.Edges, v.l)
 	bi := v.bandIndex()
+	// with LayerSpacing 0 bands of height 0 coincide with their neighbours, so the bands cannot be read off the y coordinates:
+	// the band of every node is taken from a second run that differs in the layer spacing only (layering and ordering do not
+	// depend on it)
+	abutting := c.Opts.LayerSpacing != nil && *c.Opts.LayerSpacing == 0
+	if abutting {
+		ro := c.Opts
+		ro.LayerSpacing = fptr(64)
+		ref := core.Run(c.Edges, ro)
+		if ref.Panic != nil {
+			return noReturn(ref.Panic)
+		}
+		rv := newView(c.Edges, ro, ref.Layout, v.num.exact)
+		if !rv.allPresent() {
+			return skipped("C02")
+		}
+		bi = rv.bandIndex()
+	}
 	// helper nodes (only present with virtual output)
 	type helper struct {
 		x, y float64
@@ -784,7 +812,7 @@ func checkC06(c *core.Case, v *view) Result {
 			return skipped("C02")
 		}
 		oe := v.l.Edges[match[i]]
-		if v.n(e[0]).Y == v.n(e[1]).Y {
+		if v.n(e[0]).Y == v.n(e[1]).Y && !abutting {
 			return skipped("C03")
 		}
 		span := bi[e[0]] - bi[e[1]]
@@ -887,6 +915,9 @@ func checkC06(c *core.Case, v *view) Result {
 	r.stat("router:"+router, 1)
 	r.stat("bends", bends)
 	r.stat("multi_piece_splines", pieces)
+	if abutting && c.Opts.Router == 0 && maxSpan >= 2 {
+		r.stat("abutting_band_polylines", 1)
+	}
 	if c.Opts.Router == 0 && c.Opts.Virtual {
 		r.stat("virtual_nodes_matched", len(helpers))
 	}
@@ -994,7 +1025,7 @@ func init() {
 			libSizesCopy := maps.Clone(opts.SizeMap)
 			var first string
 			var firstLayout = core.RunResult{}
-			panics := 0
+			panics, interleaved := 0, 0
 			for i := 0; i < reps; i++ {
 				res := core.Run(c.Edges, opts)
 				if res.Panic != nil {
@@ -1011,6 +1042,14 @@ func init() {
 				if first == "" {
 					first = enc
 					firstLayout = res
+					if c.Index%2 == 0 && c.Note != "starved" {
+						// between the first and the second repetition the same source is laid out once with other algorithms (and
+						// without sizes): a result must not depend on what an earlier call with other options computed for this
+						// input (anything remembered per input across calls)
+						other := core.Opts{Breaker: 2 - 2*(c.Opts.Breaker/2), Layerer: 1 - c.Opts.Layerer, Positioner: 1 + (c.Opts.Positioner+1)%2, Router: (c.Opts.Router + 1) % 4, Explicit: true, Virtual: !c.Opts.Virtual, VirtualSet: true}
+						core.Run(c.Edges, other)
+						interleaved = 1
+					}
 					continue
 				}
 				if enc != first {
@@ -1074,6 +1113,7 @@ func init() {
 				r.stat("cyclic_inputs", 1)
 			}
 			r.stat("repetitions", reps)
+			r.stat("interleaved_calls_with_other_options", interleaved)
 			if c.Note == "starved" {
 				r.stat("starved_repetitions", 1)
 			}
